@@ -18,7 +18,7 @@ def run(report, tier):
         plan += [(Config("Q2", kind="factory", quota=2, workers=1, calls=[("imap", "list", 3, 1), ("imap_unordered", "list", 2, 1)]), 1, 0, None)]
     else:
         plan = [(P.P4(), None, 0, None), (P.P5(), 2, 0, None), (P.P6(), 2, 0, None), (P.P11(), None, 0, None),
-                (P.D5(), 1, 1, None), (P.D6(), 1, 1, None), (P.P5w(), 2, 0, None), (P.P12(), 2, 0, None), (P.P13(), 1, 0, None), (P.J5(), 2, 1, None)]
+                (P.D5(), 1, 1, None), (P.D6(), 0, 1, None), (P.D6(), 1, 1, 600000), (P.P5w(), 2, 0, None), (P.P12(), 2, 0, None), (P.P13(), 1, 0, None), (P.J5(), 2, 1, None)]
         k = 0
         for x in shapes:
             for y in shapes:
